@@ -3,6 +3,47 @@
    followed by <nlines> lines of text. Output: one line "<id>\t<json>" per request. *)
 let n_of_int (i : int) : BinNums.coq_N = BinNat.N.of_nat (let rec go k = if k = 0 then Datatypes.O else Datatypes.S (go (k-1)) in go i)
 
+let rec nat_of_int k = if k <= 0 then Datatypes.O else Datatypes.S (nat_of_int (k-1))
+let z_of_int (i : int) : BinNums.coq_Z =
+  if i = 0 then BinNums.Z0
+  else if i > 0 then BinInt.Z.of_nat (nat_of_int i)
+  else BinInt.Z.opp (BinInt.Z.of_nat (nat_of_int (-i)))
+let words s = List.filter (fun w -> w <> "") (String.split_on_char ' ' s)
+
+(* group request text:
+     C <nfuncs> <nlines>   then nlines program lines, then nfuncs lines "P i j k"
+     T id type has_ls ls app abs rel      (ls/app: function index or -, abs: n or -, rel: off=id,off=id or -) *)
+let parse_group (text : string) =
+  let lines = Array.of_list (String.split_on_char '\n' text) in
+  let n = Array.length lines in
+  let contracts = ref [] and txns = ref [] in
+  let i = ref 0 in
+  while !i < n do
+    let l = lines.(!i) in
+    (match words l with
+     | "C" :: nf :: nl :: _ ->
+       let nf = int_of_string nf and nl = int_of_string nl in
+       let src = String.concat "\n" (Array.to_list (Array.sub lines (!i + 1) nl)) in
+       let paths = List.init nf (fun k ->
+           match words lines.(!i + 1 + nl + k) with
+           | "P" :: ids -> List.map (fun x -> nat_of_int (int_of_string x)) ids
+           | _ -> []) in
+       contracts := (src, paths) :: !contracts;
+       i := !i + 1 + nl + nf
+     | "T" :: id :: ty :: hl :: ls :: app :: abs :: rel :: _ ->
+       let opt f x = if x = "-" then None else Some (f x) in
+       let rels = if rel = "-" then [] else
+           List.map (fun kv -> match String.split_on_char '=' kv with
+               | [o; t] -> (z_of_int (int_of_string o), t) | _ -> (BinNums.Z0, "")) (String.split_on_char ',' rel) in
+       txns := { Group.g_id = id; g_type = ty; g_has_logic_sig = (hl = "1");
+                 g_logic_sig = opt (fun x -> nat_of_int (int_of_string x)) ls;
+                 g_application = opt (fun x -> nat_of_int (int_of_string x)) app;
+                 g_abs = opt (fun x -> n_of_int (int_of_string x)) abs; g_rel = rels } :: !txns;
+       i := !i + 1
+     | _ -> i := !i + 1)
+  done;
+  (List.rev !contracts, List.rev !txns)
+
 let () =
   let rec loop () =
     match input_line stdin with
@@ -24,6 +65,8 @@ let () =
               | "cfg" -> Driver.handle_cfg text
               | "analyze" -> Driver.handle_analyze text
               | "ast" -> Driver.handle_ast text
+              | "function" -> Driver.handle_function (List.map (fun x -> nat_of_int (int_of_string x)) rest) text
+              | "group" -> let (cs, ts) = parse_group text in Driver.handle_group cs ts
               | "parseline" ->
                 let v = match rest with v :: _ -> int_of_string v | [] -> 8 in
                 Driver.handle_parseline (n_of_int v) text
